@@ -142,6 +142,7 @@ func (s *Server) Close() {
 
 // DB is one in-memory database.
 type DB struct {
+	onDeath func(string)
 	name string
 	mu   sync.Mutex
 
@@ -291,6 +292,27 @@ func (d *DB) UnsupportedReasons() []string {
 	d.mu.Lock()
 	defer d.mu.Unlock()
 	return append([]string(nil), d.unsupportedWhy...)
+}
+
+// OnDeath registers a callback invoked (under the engine lock; it must not call back into the
+// DB — cancelling a context is the intended use) when a fault plan kills an incarnation.
+func (d *DB) OnDeath(fn func(incarnation string)) {
+	d.mu.Lock()
+	d.onDeath = fn
+	d.mu.Unlock()
+}
+
+func (d *DB) fireDeath(name string) {
+	if d.onDeath != nil {
+		d.onDeath(name)
+	}
+}
+
+// IsDead reports whether the incarnation has been killed.
+func (d *DB) IsDead(incarnation string) bool {
+	d.mu.Lock()
+	defer d.mu.Unlock()
+	return d.inc(incarnation).dead
 }
 
 func (d *DB) KillIncarnation(incarnation string) {
